@@ -1,0 +1,18 @@
+//go:build verif
+
+// Verification exports (add-only, compiled only with -tags verif): read-only views of the
+// leader controller that the crash/apply-order harness of /verif needs to run deterministic schedules.
+package server
+
+// VerifFollowerAckOffset returns the highest offset acknowledged by the given follower's cursor
+// (-2 if there is no such cursor).
+func VerifFollowerAckOffset(l LeaderController, follower string) int64 {
+	lc := l.(*leaderController)
+	lc.RLock()
+	defer lc.RUnlock()
+	c, ok := lc.followers[follower]
+	if !ok {
+		return -2
+	}
+	return c.AckOffset()
+}
